@@ -1,7 +1,7 @@
 (* Properties_C08.v -- C08: vi operators, inserts, puts and registers.
    Statements only; every proof is `exact <lemma>`; Print Assumptions under each. *)
 From Coq Require Import List NArith ZArith Bool.
-From NV Require Import Bytes UcDefs UcSpec MotDefs MotProps RegDefs RegProps ViDefs ViProps ViExecProps.
+From NV Require Import Bytes UcDefs UcSpec MotDefs MotProps MotWordProps RegDefs RegProps ViDefs ViProps ViExecProps ViTargetProps.
 Import ListNotations.
 Local Open Scope N_scope.
 
@@ -147,6 +147,34 @@ Theorem C08_delete_put_chars_exec : forall rows e y a1 a2 t k r2 o2 cl cc pc e1 
   (off_ok nl (g_o1 g) -> flat txt <> [] -> v_off (s_vs e1) = g_o1 g /\ s_buf (exec_put rows e1 y 0 false) = b).
 Proof. exact delete_chars_spec. Qed.
 Print Assumptions C08_delete_put_chars_exec.
+(* every operator target is a position of the buffer: for a non-empty well-formed buffer and a valid cursor, a
+   successful motion of an operator command is either a line motion (offset -1) or ends on an existing character
+   (possibly the terminator) of an existing line -- for every motion key of the C07 model, count and state *)
+Theorem C08_target_is_position : forall b rows s a1 a2 t k r2 o2 cl cc pc, buf_wf b -> b <> [] -> cursor_ok b (v_row s) (v_off s) ->
+  op_target b rows s a1 a2 t (ren_noeol (getl b (v_row s)) (v_off s)) = TOk k r2 o2 cl cc pc ->
+  o2 = -1 \/ (exists l, getl b r2 = Some l /\ 0 <= o2 < slen l).
+Proof. exact op_target_vpos. Qed.
+Print Assumptions C08_target_is_position.
+(* hence C08_delete_put_chars_exec WITHOUT side conditions on the region: for every non-empty well-formed valid buffer,
+   valid cursor, count pair, motion and plain register, a character-wise delete finds both rows of its region, the
+   region ends at or before the terminator of its last line, and the four conclusions hold *)
+Theorem C08_delete_put_chars_total : forall rows e y a1 a2 t k r2 o2 cl cc pc e1, plain_reg y ->
+  let b := s_buf e in let s := s_vs e in
+  let o1 := ren_noeol (getl b (v_row s)) (v_off s) in
+  buf_wf b -> buf_valid b -> b <> [] -> cursor_ok b (v_row s) (v_off s) ->
+  op_target b rows s a1 a2 t o1 = TOk k r2 o2 cl cc pc ->
+  let g := vc_region b k (v_row s) o1 r2 o2 in
+  g_ln g = false ->
+  exec_op rows e y a1 Od a2 t [] = Some e1 ->
+  exists l1 l2, getl b (g_r1 g) = Some l1 /\ getl b (g_r2 g) = Some l2 /\ g_o2 g <= slen l2 - 1 /\
+  let nl := sub_l l1 0 (g_o1 g) ++ sub_l l2 (g_o2 g) (-1) in
+  let txt := lbuf_region b (g_r1 g) (g_o1 g) (g_r2 g) (g_o2 g) in
+  reg_get (s_regs e1) y = Some (ViDefs.flat txt, false) /\
+  s_buf e1 = firstn (Z.to_nat (g_r1 g)) b ++ [nl] ++ skipn (Z.to_nat (g_r2 g + 1)) b /\
+  v_row (s_vs e1) = g_r1 g /\
+  (off_ok nl (g_o1 g) -> ViDefs.flat txt <> [] -> v_off (s_vs e1) = g_o1 g /\ s_buf (exec_put rows e1 y 0 false) = b).
+Proof. exact delete_chars_total. Qed.
+Print Assumptions C08_delete_put_chars_total.
 (* not covered by a theorem: p (put after) and counts on puts as a round trip, upper-case (appending)
    registers in the round trip, "u restores" (C04) *)
 
